@@ -102,6 +102,21 @@ func (ft *FT) lockAcquire(st *State, guard Term, lockVal ssa.Value, pos token.Po
 			}
 		}
 	}
+	// channels whose closed status the lock protects: other goroutines may have closed them since the last critical section
+	for _, g := range m.Closes {
+		for i := 0; i < stt.NumFields(); i++ {
+			f := stt.Field(i)
+			if f.Name() != g {
+				continue
+			}
+			k := fieldKey(bt, f)
+			ft.keySort(k, arraySort("Int", ft.d.sortOf(f.Type())))
+			ft.keySort("CLOSED", arraySort("Int", "Bool"))
+			ch := sel(ft.get(st, k), b)
+			nv := ft.fresh("mon!closed!"+g, "Bool")
+			ft.set(st, "CLOSED", app("store", ft.get(st, "CLOSED"), ch, nv))
+		}
+	}
 	if m.Inv != nil {
 		ctx := ft.monitorCtx(m, base, st)
 		t, err := ctx.boolExpr(m.Inv.Expr)
